@@ -81,17 +81,65 @@ func history(r drv.Rand, idx int) *h.World {
 			w.Revoke(rt, c, t, hint)
 			w.UseEverywhere(fixed, mixed, t)
 		case k < 15:
+			// end_session variants: with / without id_token_hint x with / without client_id (the
+			// client of a token of the session's user, any client, a near miss); afterwards the
+			// session's tokens are presented everywhere
 			var hint *h.Tok
-			cid := ""
-			if r.Chance(4, 5) {
+			cid, user := "", w.UAUser
+			if r.Chance(3, 5) {
 				hint = w.Present("idtok", "idtok", "idtok", "jwt-at")
 				w.Tags["logout-hint="+hint.Kind] = true
+				if hint.Sub != "" {
+					user = hint.Sub
+				}
+			} else {
+				w.Tags["logout-hint=none"] = true
 			}
-			if r.Chance(1, 3) {
+			var mine []*h.Tok // tokens of the session's user
+			for _, t := range w.PoolOf("opaque-at", "jwt-at", "rt") {
+				if t.Sub == user && user != "" {
+					mine = append(mine, t)
+				}
+			}
+			switch c := r.IntN(6); {
+			case w.Policy.NoLogoutFor != "" && c < 3: // the client whose sessions the storage cannot end
+				cid = w.Policy.NoLogoutFor
+				if hint != nil && hint.Client != "" && hint.Client != cid {
+					cid = "" // (a client_id that contradicts the hint is refused before the storage is asked)
+					if idt := w.PoolOf("idtok"); len(idt) > 0 {
+						for _, t := range idt {
+							if t.Client == w.Policy.NoLogoutFor {
+								hint = t
+							}
+						}
+					}
+				}
+				w.Tags["logout-client=storage-fails"] = true
+			case c < 3 && len(mine) > 0:
+				cid = drv.Pick(r, mine).Client
+				w.Tags["logout-client=of-session"] = true
+			case c < 4:
 				cid = drv.Pick(r, []string{"web", "web2", "native", "nosuch", "WEB", "web ", "web2/", "null"})
+				w.Tags["logout-client=any"] = true
+			default:
+				w.Tags["logout-client=none"] = true
+			}
+			if hint == nil && len(mine) > 0 && r.Chance(1, 2) { // honoured before the logout ...
+				w.UseEverywhere(fixed, mixed, drv.Pick(r, mine))
 			}
 			w.EndSession(rt, hint, cid)
-			if len(w.Pool) > 0 {
+			var sess []*h.Tok
+			for _, t := range mine {
+				if t.Client == cid || (hint != nil && t.Client == hint.Client) {
+					sess = append(sess, t)
+				}
+			}
+			if len(sess) > 0 { // ... and dead after it, everywhere
+				w.UseEverywhere(fixed, mixed, drv.Pick(r, sess))
+				if len(sess) > 1 {
+					w.UseEverywhere(fixed, mixed, drv.Pick(r, sess))
+				}
+			} else if len(w.Pool) > 0 {
 				w.UseEverywhere(fixed, mixed, drv.Pick(r, w.Pool))
 			}
 		case k < 18:
@@ -113,7 +161,7 @@ func main() {
 		wr.Add(emit.Case{Input: w.Input(), Observed: w.Observed(), Tags: w.TagList(), Human: w.Log})
 	}
 	err := wr.Close(emit.Meta{Property: "C08", Tier: cfg.Tier, Seed: cfg.Seed,
-		Rule: "one case = one history on a fresh provider (refstore; both routers share it): 1-3 code flows (clients web/native opaque, web2/spa JWT, webx/web2x with negative lifetimes = expired tokens; subjects incl. one with a colon), then 4-10 operations drawn from userinfo / introspect / revoke (owner, foreign, public, bad, no credentials; with and without token_type_hint); callers at introspection / revocation / exchange present themselves as owner, foreign client, two identities, or name a registered client (confidential, public, private_key_jwt) without proving its credential (id only, empty / blank / keyword / near-miss secrets, near-miss ids, failing assertions); what the storage holds as secret of secret-less clients is a world dimension (empty string compared plainly, or unmatchable); sequences: introspection repeated without the proof, two callers on one token in both orders, use-revoke-use / end_session / token exchange / further flows, each use presenting an issued token (70%) or an adversarial string (bit flips, re-sealed under another key, forged plaintexts, raw ids, JWTs of another issuer / key / expired / tampered, garbage); every revocation and logout is followed by uses of the token at the other endpoints. Non-trivial = at least one request of the history was honoured (path class != 0); distinct = distinct (input, path class).",
+		Rule: "one case = one history on a fresh provider (refstore; both routers share it): 1-3 code flows (clients web/native opaque, web2/spa JWT, webx/web2x with negative lifetimes = expired tokens; subjects incl. one with a colon), then 4-10 operations drawn from userinfo / introspect / revoke (owner, foreign, public, bad, no credentials; with and without token_type_hint); callers at introspection / revocation / exchange present themselves as owner, foreign client, two identities, or name a registered client (confidential, public, private_key_jwt) without proving its credential (id only, empty / blank / keyword / near-miss secrets, near-miss ids, failing assertions); what the storage holds as secret of secret-less clients is a world dimension (empty string compared plainly, or unmatchable); sequences: introspection repeated without the proof, two callers on one token in both orders, use-revoke-use / end_session (with / without id_token_hint x with / without client_id, on storages with and without CanTerminateSessionFromRequest that find the end user in the request context; the session's tokens are used before and after) / token exchange / further flows, each use presenting an issued token (70%) or an adversarial string (bit flips, re-sealed under another key, forged plaintexts, raw ids, JWTs of another issuer / key / expired / tampered, garbage); every revocation and logout is followed by uses of the token at the other endpoints. Non-trivial = at least one request of the history was honoured (path class != 0); distinct = distinct (input, path class).",
 	})
 	if err != nil {
 		fmt.Fprintln(os.Stderr, err)
